@@ -159,6 +159,16 @@ static inline int spec_ldexp_ok32(uint32_t r, uint32_t x, int32_t e) {
   double p = spec_u2d((uint64_t)(1023 + k) << 52);
   return r == spec_f2u((float)((double)spec_u2f(x) * p));
 }
+/* binary64: the product is exact in long double; one rounding to binary64 in the current mode */
+static inline double spec_pow2_f64(int k) { return spec_u2d((uint64_t)(1023 + k) << 52); }
+static inline int spec_ldexp_ok64(uint64_t r, uint64_t x, int64_t e) {
+  if (spec_isnan64(x)) return spec_isnan64(r);
+  if (spec_isinf64(x) || spec_iszero64(x)) return r == x;
+  int k = e > 2200 ? 2200 : (e < -2200 ? -2200 : (int)e);
+  int k1 = k > 1000 ? 1000 : (k < -1000 ? -1000 : k); int r1 = k - k1;
+  int k2 = r1 > 1000 ? 1000 : (r1 < -1000 ? -1000 : r1); int k3 = r1 - k2;
+  return r == spec_d2u((double)((long double)spec_u2d(x) * (long double)spec_pow2_f64(k1) * (long double)spec_pow2_f64(k2) * (long double)spec_pow2_f64(k3)));
+}
 /* fmax / fmin: the larger / smaller operand; the other operand when exactly one is NaN; NaN when both are; either zero for +-0.
  * A SIGNALLING NaN operand is outside what <cmath> defines (C11 F.2.1: "does not define the behavior of signaling NaNs";
  * IEEE 754-2008 maxNum and glibc >= 2.25 return a quiet NaN, VRANGEPS does the same): for an sNaN operand either answer --
